@@ -296,6 +296,21 @@ def rule_type_domain(ctx):
     if "duckdb_to_sf_type" in m.consts and isinstance(m.consts["duckdb_to_sf_type"], ast.Dict):
         dom = {k.value for k in m.consts["duckdb_to_sf_type"].keys if isinstance(k, ast.Constant)}
     if not dom:
+        # the table is computed (derived from a table of records, merged from parts …): evaluate the module constant, or the
+        # string-keyed table the type conversion looks the column type up in
+        from ..interp import Hooks as _H, Interp as _I
+        from ..values import Dct as _D
+        I_ = _I(prog, _H(), [])
+        cands = ["duckdb_to_sf_type"] + [k for k in m.consts if k != "duckdb_to_sf_type"]
+        for nm in cands:
+            try:
+                v_ = I_.global_lookup("types", nm) if nm in m.consts else None
+            except Exception:  # noqa: BLE001
+                v_ = None
+            if isinstance(v_, _D) and len(v_.items) >= 8 and all(isinstance(k, str) and k.isupper() for k in v_.items):
+                dom = set(v_.items)
+                break
+    if not dom:
         from ..model import AnalysisError
         raise AnalysisError("anchor vanished: types.duckdb_to_sf_type dict")
     ctx.floor("duckdb_to_sf_type entries", len(dom), 10)
@@ -389,11 +404,14 @@ def rule_precision_pattern(ctx):
     prog = ctx.prog
     m = prog.mod("types")
     n = 0
-    for qual, fn in m.functions.items():
+    # every `re.<fn>("<pattern>", …)` of the module, inside functions or at module level (a pattern compiled once)
+    seen_calls = set()
+    for qual, fn in [*m.functions.items(), ("<module>", m.tree)]:
         for c in ast.walk(fn):
             if not (isinstance(c, ast.Call) and isinstance(c.func, ast.Attribute) and isinstance(c.func.value, ast.Name) and c.func.value.id == "re"
-                    and c.args and isinstance(c.args[0], ast.Constant) and isinstance(c.args[0].value, str)):
+                    and c.args and isinstance(c.args[0], ast.Constant) and isinstance(c.args[0].value, str)) or id(c) in seen_calls:
                 continue
+            seen_calls.add(id(c))
             pat = c.args[0].value
             try:
                 parsed = sre_parse.parse(pat)
